@@ -559,7 +559,16 @@ func soundRun(be int) func(w *Worker, tape *simrt.Tape) *Outcome {
 				}
 				rec := recs[tape.Choose(simrt.SFault, len(recs))]
 				k := rec.Off + tape.Choose(simrt.SFault, rec.Len)
-				data[k] ^= byte(1 << tape.Choose(simrt.SFault, 8))
+				bit := tape.Choose(simrt.SFault, 8)
+				if k == rec.Off && bit >= 5 {
+					// the top bits of an element's first byte are encoding metadata (compressed /
+					// uncompressed / infinity): flipping them makes the decoder read a different
+					// number of bytes, point data is then taken for the next length prefix and the
+					// decoder allocates from it - the allocation bomb recorded under C08, where such
+					// inputs run in a batch of their own
+					bit -= 5
+				}
+				data[k] ^= byte(1 << bit)
 				p, _, err, pan := decodeProof(be, curve, bytes.NewReader(data))
 				o.fault("byte_flip")
 				if pan != "" {
